@@ -373,10 +373,59 @@ func genLZBoundary(n int, seed uint64) []byte {
 
 var shapeNames = []string{"text", "crlf", "xml", "utf8-2", "utf8-3", "utf8-4", "utf8-wide", "utf8-dense", "dna", "dna-mixed", "base64", "hex", "numeric",
 	"elf", "pe", "wav8m", "wav16s", "bmp", "runs", "sparse", "skew1", "skew3", "const", "random", "zipmagic", "period3", "period255", "period65535",
-	"rot256", "fib", "raredom", "lzbound", "mixed", "longlit"}
+	"rot256", "fib", "raredom", "lzbound", "mixed", "longlit", "allruns", "rarerun", "zipmagic-text"}
 
 // a smaller set for the expensive products
-var coreShapes = []string{"text", "utf8-3", "utf8-wide", "utf8-dense", "dna", "elf", "wav16s", "runs", "sparse", "skew3", "const", "random", "rot256", "lzbound", "period255", "mixed", "longlit"}
+var coreShapes = []string{"text", "utf8-3", "utf8-wide", "utf8-dense", "dna", "elf", "wav16s", "runs", "sparse", "skew3", "const", "random", "rot256", "lzbound", "period255", "mixed", "longlit", "allruns", "rarerun"}
+
+// genAllRuns: runs of EVERY byte value (descending from 0xFF, so that the escape symbols of the
+// run-length family - 0xFB, 0xFE, 0xFF - come first), with run lengths cycling through the
+// thresholds of RLT/ZRLT, separated by short literal stretches; the run of a value never starts the block.
+func genAllRuns(n int, seed uint64) []byte {
+	r := newRng(seed)
+	lens := []int{5, 4, 9, 3, 40, 6, 2, 300, 8, 1, 17}
+	out := make([]byte, 0, n)
+	out = append(out, 'a', 'b')
+	for i := 0; len(out) < n; i++ {
+		v := byte(0xFF - i%256)
+		l := lens[(i+i/256)%len(lens)]
+		for k := 0; k < l && len(out) < n; k++ {
+			out = append(out, v)
+		}
+		for k := r.intn(3); k > 0 && len(out) < n; k-- {
+			out = append(out, byte('a'+r.intn(20)))
+		}
+	}
+	return out
+}
+
+// genRareRun: all 256 byte values occur, 255 of them often (in runs of 8), one of them exactly once
+// as a run of 6 in the middle of the block - so a codec that picks the least frequent byte as its
+// escape symbol meets a RUN of its own escape symbol. Needs n >= 2100, else falls back to allruns.
+func genRareRun(n int, seed uint64) []byte {
+	if n < 2100 {
+		return genAllRuns(n, seed)
+	}
+	rare := byte(0x5C + seed%7)
+	out := make([]byte, 0, n)
+	placed := false
+	for i := 0; len(out) < n; i++ {
+		v := byte(i % 256)
+		if v == rare {
+			continue
+		}
+		if !placed && len(out) >= n/2 && len(out)+6 <= n {
+			for k := 0; k < 6; k++ {
+				out = append(out, rare)
+			}
+			placed = true
+		}
+		for k := 0; k < 8 && len(out) < n; k++ {
+			out = append(out, v)
+		}
+	}
+	return out
+}
 
 func shape(name string, n int) []byte {
 	if n == 0 {
@@ -479,6 +528,15 @@ func shape(name string, n int) []byte {
 			seg := shape(kinds[(i*5+i/9)%len(kinds)], 1024)
 			out = append(out, seg[:min(1024, n-len(out))]...)
 		}
+		return out
+	case "allruns":
+		return genAllRuns(n, seed)
+	case "rarerun":
+		return genRareRun(n, seed)
+	case "zipmagic-text":
+		// starts with the signature of an already-compressed format, the rest is compressible text
+		out := genText(n, seed, "\n")
+		copy(out, []byte{'P', 'K', 3, 4, 20, 0, 0, 0})
 		return out
 	case "longlit":
 		// a compressible block that contains one very long match-free stretch (literal run lengths
